@@ -23,8 +23,8 @@ package _interface
 //@   modifies storeops
 //@   ensures storeops == old(storeops) + 1
 //@ interface (LimitStore).List(s, selector) props C13, C19
-//@   modifies storeops
-//@   ensures storeops == old(storeops) + 1
+//@   modifies storeops, listedconds
+//@   ensures storeops == old(storeops) + 1 && listedconds == result
 //@ interface (LimitStore).GetFlowControl(s, cluster, name) props C13, C19
 //@   modifies storeops
 //@   ensures storeops == old(storeops) + 1
